@@ -1,11 +1,13 @@
 package verifsim
 
 import (
+	"context"
 	"crypto/sha256"
 	"encoding/hex"
 	"encoding/json"
 	"fmt"
 	"os"
+	"sort"
 	"time"
 
 	"github.com/mimiro-io/datahub/internal/server"
@@ -440,6 +442,65 @@ func RunStoreScenario(sc *Scenario) (vd *Verdict) {
 			}
 			r.Stats["versions_compacted"] += int64(before - len(r.M.DS[op.DS].Versions))
 			r.ev("compact removed=%d", before-len(r.M.DS[op.DS].Versions))
+		case "fullsyncAway":
+			// a full sync that lists nothing is started and completed on the dataset: every live entity gets a deleted
+			// version. A reader asks its questions while the completion is scanning the dataset (an instant before the
+			// deletions are committed) and will ask them again as of that instant later
+			ds := r.H.Dataset(op.DS)
+			d := r.M.DS[op.DS]
+			if ds == nil || d == nil {
+				break
+			}
+			if err := ds.StartFullSync(); err != nil {
+				fail(viol(sc.Property, "write", "fullsync-start-failed", "%v", err), i)
+				return
+			}
+			marked := false
+			var mv *Violation
+			prev := hooks.onPoint
+			hooks.onPoint = func(owner any, name string, h int64) {
+				if name == "CompleteFullSync.scanEntity" && !marked {
+					marked = true
+					l, q, v := r.currentAnswers()
+					if v != nil {
+						mv = v
+						return
+					}
+					r.takeMark("in-completion-scan", time.Now().UnixNano(), l, q)
+				}
+				if prev != nil {
+					prev(owner, name, h)
+				}
+			}
+			err := ds.CompleteFullSync(context.Background())
+			hooks.onPoint = prev
+			if err != nil || mv != nil {
+				if mv == nil {
+					mv = viol(sc.Property, "write", "fullsync-complete-failed", "%v", err)
+				}
+				fail(mv, i)
+				return
+			}
+			type pair struct {
+				id  string
+				iid uint64
+			}
+			var todo []pair
+			for id := range d.Latest {
+				c := d.LatestOf(id)
+				if c.Deleted {
+					continue
+				}
+				iid, _ := r.H.Store.VerifIDForURI(r.H.curie(specFromCanon(c)["id"].(string)))
+				todo = append(todo, pair{id, iid})
+			}
+			sort.Slice(todo, func(a, b int) bool { return todo[a].iid < todo[b].iid })
+			for _, p := range todo {
+				c := d.LatestOf(p.id)
+				d.ForceAppend(&CanonEnt{ID: c.ID, Deleted: true, Props: c.Props, Refs: c.Refs})
+			}
+			r.Stats["full_syncs_completed"]++
+			r.Stats["commits"]++
 		case "mark":
 			l, q, v := r.currentAnswers()
 			if v != nil {
